@@ -893,6 +893,11 @@ class FortranReaderBase:
                 self.reader = FortranFileReader(
                     path, include_dirs=include_dirs, ignore_comments=ignore_comments
                 )
+                # The included lines take the place of the INCLUDE line, so
+                # they are in the source form of this file, whatever they
+                # look like on their own (e.g. a lone 'call s(i)' or
+                # '10 continue' starting in column one).
+                self.reader.set_format(self._format)
                 result = self.reader.next(ignore_comments=ignore_comments)
                 return result
             return item
